@@ -65,7 +65,7 @@ static void run_pt(int k) {
         if (op == 'q') { if (pmc_choose(2, PMC_PROG, 0, "pad yield")) thread_yield(); continue; }
         bool nested = (op == 'N');          // recursive: lock twice
         bool hold = (op == 'H');            // lock, keep it across a 10 us sleep (the vCPU goes idle: waiters on other vCPUs queue up by default), unlock
-        uint64_t t_start = mv_now();
+        uint64_t t_start = mv_now(); int intr0 = G->interrupts_sent[k];
         errno = 0;
         int r = do_lock(nested || hold ? 'L' : op);
         int e = errno;
@@ -84,6 +84,9 @@ static void run_pt(int k) {
             thread* o = G->recursive ? G->rm->owner.load() : G->m->owner.load();
             if (o == CURRENT) pmc_violation("failed-lock-owns", "lock() failed (errno %d) for thread %d but it is the owner", e, p.idx);
             if ((op == 'L' || op == 'H' || op == 'N') && !(e == EINTR && G->interrupts_sent[k])) pmc_violation("lock-failed-without-reason", "untimed lock() returned -1 errno=%d with no interrupt sent", e);
+            // an interrupt sent before this lock() began belongs to an earlier sleep (or to none): it must not fail this one (C04)
+            if (e == EINTR && G->interrupts_sent[k] == intr0 && G->nvcpu == 1)
+                pmc_violation("stale-interrupt-delivered", "lock() of thread %d returned -1/EINTR at +%llu us although no interrupt was sent to it during this call", p.idx, (unsigned long long)(mv_now() - t_start));
             if (op == 'T') {
                 bool timed_out = (e == ETIMEDOUT && mv_now() >= t_start + TMO);
                 bool interrupted = (e == EINTR && G->interrupts_sent[k]);
